@@ -1,5 +1,5 @@
-(* C04: in a Good state the complement operation is never refused (positive lengths, names with an
-   unstarred non-empty base, non-failing class); the unguarded statement fails for negative lengths. *)
+(* C04: in a Good state the complement operation is never refused (any length, names with an
+   unstarred non-empty base, non-failing class). *)
 From Coq Require Import List NArith ZArith Bool Arith Lia.
 From DSD Require Import Base.Str Base.Errors Model.ComplexUtils Model.RegStr Model.Heap Model.Registry
   Proofs.RegHeap Proofs.RegInv Proofs.RegCalls Proofs.RegExt Proofs.RegC04 Proofs.RegStep Proofs.RegC01 Proofs.RegC05
@@ -33,21 +33,19 @@ Qed.
 (* the live domain i named n in class c of length l *)
 Record Dom (ct : ctable) (st : state) (c i : nat) (n : pstr) (l : Z) : Prop := mkDom {
   dm_obj : exists ob, live_obj (heap st) i ob /\ o_cls ob = c /\ o_name ob = n /\ o_data ob = DDom l;
-  dm_kind : class_kind ct c = Some KindD;
-  dm_pos : (0 < l)%Z
+  dm_kind : class_kind ct c = Some KindD
 }.
 
 Lemma dom_registered ct st c i n l : Inv ct st -> Dom ct st c i n l ->
   nlookup n (cs_names (cget st c)) = Some i /\ klookup (KDom n l) (cs_canon (cget st c)) = Some i.
 Proof.
-  intros I [[ob [Hl [Ec [En Ed]]]] _ _]. destruct (live_registered ct st i ob I Hl) as [N [K OK]].
+  intros I [[ob [Hl [Ec [En Ed]]]] _]. destruct (live_registered ct st i ob I Hl) as [N [K OK]].
   unfold ObjOK in OK. rewrite Ed in OK. destruct OK as [O1 _]. rewrite Ec, En in N. rewrite Ec, O1, En in K. auto.
 Qed.
 
-Lemma dom_len ct st c i n l : Dom ct st c i n l -> obj_len (heap st) i = Ok l.
+Lemma dom_len ct st c i n l : Dom ct st c i n l -> obj_length (heap st) i = Ok l.
 Proof.
-  intros [[ob [[Hg _] [_ [_ Ed]]]] _ Hp]. unfold obj_len. rewrite Hg, Ed.
-  assert (E : (l <? 0)%Z = false) by (apply Z.ltb_ge; lia). rewrite E. reflexivity.
+  intros [[ob [[Hg _] [_ [_ Ed]]]] _]. unfold obj_length. rewrite Hg, Ed. reflexivity.
 Qed.
 
 (* a live partner has the same length *)
@@ -56,7 +54,7 @@ Lemma partner_len ct st c i n l p :
   nlookup (cname_of n) (cs_names (cget st c)) = Some p ->
   Dom ct st c p (cname_of n) l.
 Proof.
-  intros G Di Hb N. pose proof Di as [[ob [Hl [Ec [En Ed]]]] Hk Hp]. pose proof G as [I _ D].
+  intros G Di Hb N. pose proof Di as [[ob [Hl [Ec [En Ed]]]] Hk]. pose proof G as [I _ D].
   pose proof (class_kind_lt _ _ _ Hk) as Hc.
   destruct (found_by_name ct st c _ p I Hc N) as [op [Hlp [Ecp Enp]]].
   destruct (dom_data ct st p op D Hlp) as [lp Edp]; [rewrite Ecp; exact Hk|].
@@ -67,7 +65,7 @@ Proof.
       rewrite En, Enp. apply cname_starred. exact ES.
     - symmetry. apply (Cm i p ob op l lp Hl Hlp); [congruence | exact Ed | exact Edp | rewrite En; exact ES|].
       rewrite En, Enp. apply cname_unstarred. exact ES. }
-  subst lp. constructor; [exists op; auto | exact Hk | exact Hp].
+  subst lp. constructor; [exists op; auto | exact Hk].
 Qed.
 
 Lemma eval_lookup_star f ct c ci st i n l :
@@ -99,10 +97,9 @@ Proof.
   intros G Eci Di Hs Hcs Hnc. pose proof G as [I C D]. pose proof (collect_id ct st I C) as CI.
   assert (Hb : base_unstarred n) by (right; exact Hcs).
   assert (Hne : nonempty n = true) by (destruct n; [discriminate | reflexivity]).
-  assert (Z0 : Z.eqb l 0 = false) by (apply Z.eqb_neq; destruct Di as [_ _ Hp]; lia).
   destruct (dom_registered ct st c i n l I Di) as [Nn Kn].
   rewrite dom_call_S. unfold dom_body. rewrite Eci. cbn [resolve_name]. rewrite dom_len1_none, Hne. cbn [negb].
-  unfold dom_nested. rewrite Hs, Z0.
+  unfold dom_nested. rewrite Hs.
   assert (Fin : dom_finish ct c st (is_none (Some n)) n (Some l) = (st, CRet i false)).
   { unfold dom_finish. cbn [option_map]. unfold sing_lookup. rewrite Hne, Nn, Kn, Nat.eqb_refl. reflexivity. }
   destruct (nlookup (cname_of n) (cs_names (cget st c))) as [p|] eqn:Np.
@@ -119,7 +116,7 @@ Lemma finish_partner ct c ci st i n l auto :
   base_unstarred n -> nonempty (cname_of n) = true ->
   exists o b, snd (dom_finish ct c st auto (cname_of n) (Some l)) = CRet o b.
 Proof.
-  intros G Eci Ef Di Hb Hnc. pose proof G as [I C D]. pose proof Di as [_ Hk _].
+  intros G Eci Ef Di Hb Hnc. pose proof G as [I C D]. pose proof Di as [_ Hk].
   pose proof (class_kind_lt _ _ _ Hk) as Hc.
   unfold dom_finish. cbn [option_map]. unfold sing_lookup. rewrite Hnc.
   destruct (nlookup (cname_of n) (cs_names (cget st c))) as [p|] eqn:Np.
@@ -136,13 +133,12 @@ Theorem complement_never_refused ct st c ci i n l :
   exists o b, snd (dom_call dom_fuel ct c st (Some (cname_of n)) (Some l) None None) = CRet o b.
 Proof.
   intros G Eci Ef Di Hb Hnc. pose proof G as [I C D]. pose proof (collect_id ct st I C) as CI.
-  pose proof Di as [[ob [Hl [Ec [En Ed]]]] Hk Hp].
-  assert (Hne : nonempty n = true) by (destruct D as [_ [Z _]]; rewrite <- En; apply (proj2 (Z i ob l Hl Ed))).
-  assert (Z0 : Z.eqb l 0 = false) by (apply Z.eqb_neq; lia).
+  pose proof Di as [[ob [Hl [Ec [En Ed]]]] Hk].
+  assert (Hne : nonempty n = true) by (destruct D as [_ [Z _]]; rewrite <- En; apply (Z i ob l Hl Ed)).
   destruct (dom_registered ct st c i n l I Di) as [Nn Kn].
   assert (E2 : cname_of (cname_of n) = n) by (apply cname_involutive; exact Hb).
   unfold dom_fuel. rewrite (dom_call_S 7). unfold dom_body. rewrite Eci. cbn [resolve_name]. rewrite dom_len1_none, Hnc. cbn [negb].
-  unfold dom_nested. rewrite E2, Z0. destruct (starred (cname_of n)) eqn:ESc.
+  unfold dom_nested. rewrite E2. destruct (starred (cname_of n)) eqn:ESc.
   - (* n unstarred: the complement x* looks n up *)
     assert (ES : starred n = false).
     { destruct Hb as [Hb|Hb]; [exact Hb | congruence]. }
@@ -159,30 +155,15 @@ Qed.
 (* as an operation *)
 Theorem invert_never_refused ct st dst src i ob l ci :
   Good ct st -> get_root st src = Some i -> live_obj (heap st) i ob -> o_data ob = DDom l ->
-  (0 < l)%Z -> base_unstarred (o_name ob) -> nonempty (cname_of (o_name ob)) = true ->
+  base_unstarred (o_name ob) -> nonempty (cname_of (o_name ob)) = true ->
   nth_error ct (o_cls ob) = Some ci -> c_fail ci = FNone ->
   exists o, snd (step ct st (OComplement dst src)) = Returned o \/ snd (step ct st (OComplement dst src)) = Created o.
 Proof.
-  intros G Hr Hl Ed Hp Hb Hnc Eci Ef. pose proof G as [I C D].
+  intros G Hr Hl Ed Hb Hnc Eci Ef. pose proof G as [I C D].
   assert (Hk : class_kind ct (o_cls ob) = Some KindD).
   { destruct D as [_ [_ K]]. rewrite (K i ob Hl), Ed. reflexivity. }
-  assert (Di : Dom ct st (o_cls ob) i (o_name ob) l) by (constructor; [exists ob; auto | exact Hk | exact Hp]).
+  assert (Di : Dom ct st (o_cls ob) i (o_name ob) l) by (constructor; [exists ob; auto | exact Hk]).
   destruct (complement_never_refused ct st (o_cls ob) ci i (o_name ob) l G Eci Ef Di Hb Hnc) as [o [b E]].
   exists o. cbn [step]. rewrite Hr. destruct Hl as [Hg _]. rewrite Hg, Ed. unfold dom_complement. rewrite Hg, Ed.
   unfold finish. rewrite E. destruct b; auto.
-Qed.
-
-(* the unguarded statement fails: a domain of negative length can be created, and len() of it raises
-   ValueError inside ~d  (DomainS('a', -3); ~a on the implementation) *)
-Theorem invert_never_refused_full_refuted : ~ invert_never_refused_full.
-Proof.
-  intros H.
-  set (st := run ctD (init ctD 2) [ODomain 0 0 (Some nA) (Some (-3)%Z) None None]).
-  assert (G : Good ctD st).
-  { apply good_run; [exact consts_ctZ | repeat constructor; cbn; discriminate | apply good_init]. }
-  destruct (H ctD st 1 0 0 (mkObj 0 nA (KDom nA (-3)) [KDom nA (-3)] true [] (DDom (-3))) (-3)%Z
-              (mkCinfo KindD None 8 5 15 [100%N] (Some 1%Z) FNone) G consts_ctZ) as [o [E|E]];
-    try (vm_compute; reflexivity); try (vm_compute in E; discriminate).
-  - vm_compute. split; reflexivity.
-  - left. reflexivity.
 Qed.
